@@ -179,6 +179,12 @@ elem_plain!(B64a64, 64, 64);
 elem_drop!(D160, 160, 8);
 elem_plain!(B160a32, 160, 32);
 
+/// A distinct type with exactly the layout of `E` (same size, same alignment, same
+/// bytes): the hardest wrong-type offer, since nothing but the TypeId tells them apart.
+#[repr(transparent)]
+#[derive(Clone)]
+pub struct Twin<E>(pub E);
+
 /// A type that is never an element type (wrong-type downcast probes).
 pub struct Wrong(#[allow(dead_code)] pub u64);
 
